@@ -14,6 +14,10 @@ type famOut struct {
 	Convs  map[string]string
 	Order  []string
 	FailOn [][2]string
+	// further packages of the scratch module: relative file path -> full source; TypeImports are import specs
+	// (`alias "MODULE/dir"`) of p/types.go and p/conv.go
+	Pkgs        map[string]string
+	TypeImports []string
 }
 
 func (f *famOut) add(name, src string) {
@@ -33,12 +37,20 @@ func merge(fs ...*famOut) *famOut {
 			out.add(n, f.Convs[n])
 		}
 		out.FailOn = append(out.FailOn, f.FailOn...)
+		for k, v := range f.Pkgs {
+			if out.Pkgs == nil {
+				out.Pkgs = map[string]string{}
+			}
+			out.Pkgs[k] = v
+		}
+		out.TypeImports = append(out.TypeImports, f.TypeImports...)
 	}
 	return out
 }
 
 func (f *famOut) batch(tag string, vals int) *k2Batch {
-	return &k2Batch{Tag: tag, Types: f.Types, Extra: f.Custom, Convs: f.Convs, Order: f.Order, FailOn: f.FailOn, ValModes: vals, Share: 20}
+	return &k2Batch{Tag: tag, Types: f.Types, Extra: f.Custom, Convs: f.Convs, Order: f.Order, FailOn: f.FailOn, ValModes: vals, Share: 20,
+		Pkgs: f.Pkgs, TypeImports: f.TypeImports}
 }
 
 var wrapModes = []string{"", "wrapErrors", "wrapErrorsUsing MODULE/wrap"}
@@ -60,7 +72,17 @@ func famExtend(r *rng.R, id int) *famOut {
 	default:
 		aDecl = fmt.Sprintf("type %sA string\n", p)
 	}
+	// an extend function between IDENTICAL types (T -> T): it must be used at every position, also with skipCopySameType
+	withSame := r.Chance(50)
+	sameFields, sameInner := "", ""
+	if withSame {
+		sameFields = fmt.Sprintf("\tS  %[1]sS\n\tPS *%[1]sS\n\tLS []%[1]sS\n", p)
+		sameInner = fmt.Sprintf("\tS %[1]sS\n", p)
+	}
 	f.Types = aDecl + fmt.Sprintf(`type %[1]sB struct {
+	Stamp string
+}
+type %[1]sS struct {
 	Stamp string
 }
 type %[1]sOuter struct {
@@ -70,11 +92,11 @@ type %[1]sOuter struct {
 	M  map[string]%[1]sA
 	N  %[1]sInner
 	Ls []%[1]sInner
-}
+%[2]s}
 type %[1]sInner struct {
 	A %[1]sA
 	K int
-}
+%[3]s}
 type %[1]sOuterT struct {
 	X  %[1]sB
 	Y  *%[1]sB
@@ -82,12 +104,12 @@ type %[1]sOuterT struct {
 	M  map[string]%[1]sB
 	N  %[1]sInnerT
 	Ls []%[1]sInnerT
-}
+%[2]s}
 type %[1]sInnerT struct {
 	A %[1]sB
 	K int
-}
-`, p)
+%[3]s}
+`, p, sameFields, sameInner)
 	// the extend function
 	params := []string{"s " + p + "A"}
 	args := []string{"s"}
@@ -118,11 +140,20 @@ type %[1]sInnerT struct {
 	f.Custom = fmt.Sprintf("%sfunc Ext%s(%s) %s {\n\t%s\n}\n\n", doc, p, strings.Join(params, ", "), ret, body)
 	var b strings.Builder
 	b.WriteString("// goverter:converter\n// goverter:extend Ext" + p + "\n")
+	if withSame {
+		sameCtx := withCtx && r.Bool()
+		sp, sa, sdoc := "s "+p+"S", "s", ""
+		if sameCtx {
+			sp, sa, sdoc = sp+", ctxTag string", "s, ctxTag", "// goverter:context ctxTag\n"
+		}
+		f.Custom += fmt.Sprintf("%[4]sfunc Same%[1]s(%[2]s) %[1]sS {\n\treturn %[1]sS{Stamp: rt.Stamp(%[5]q, %[3]s)}\n}\n\n", p, sp, sa, sdoc, "Same"+p)
+		b.WriteString("// goverter:extend Same" + p + "\n")
+	}
 	wm := rng.Pick(r, wrapModes)
 	if wm != "" {
 		b.WriteString("// goverter:" + wm + "\n")
 	}
-	if r.Chance(30) {
+	if r.Chance(45) {
 		b.WriteString("// goverter:skipCopySameType\n")
 	}
 	b.WriteString("type " + convIface + " interface {\n")
@@ -304,6 +335,8 @@ func famFields(r *rng.R, id int) *famOut {
 	other   int
 	Mixed   string
 	MIXED2  string
+	Dup     string
+	DUP     string
 }
 type %[1]sNested struct {
 	Street string
@@ -327,6 +360,8 @@ type %[1]sOut struct {
 	Mixed    string
 	Mixed2   string
 	Unset    string
+	DuP      string
+	DUP      string
 }
 type %[1]sIn2 struct {
 	Name string
@@ -335,7 +370,9 @@ type %[1]sIn2 struct {
 `, p)
 	var b strings.Builder
 	b.WriteString("// goverter:converter\n")
-	if r.Chance(50) {
+	// every 6th instance pins the combination ignoreMissing x matchIgnoreCase x ambiguous candidates (must be an error)
+	pinned := id%6 == 0
+	if pinned || r.Chance(50) {
 		b.WriteString("// goverter:matchIgnoreCase\n")
 	}
 	b.WriteString("type " + p + "C interface {\n")
@@ -356,7 +393,13 @@ type %[1]sIn2 struct {
 	opt(85, "map . Whole")
 	opt(85, "ignore Unset")
 	opt(70, "map MIXED2 Mixed2")
-	opt(10, "ignoreMissing")
+	// DuP has two case-insensitive candidates (Dup, DUP) and no exact one; DUP has an exact one
+	if pinned {
+		lines = append(lines, "ignoreMissing")
+	} else {
+		opt(60, "ignore DuP")
+		opt(30, "ignoreMissing")
+	}
 	opt(10, "autoMap PNested")
 	opt(8, "map Nope Unset")
 	opt(8, "ignore Nope")
@@ -403,6 +446,15 @@ func famEnum(r *rng.R, id int) *famOut {
 	}
 	sb.WriteString(fmt.Sprintf("\t%sTgtUnknown %sTgt = %s\n)\n\n", p, p, lit(99)))
 	sb.WriteString(fmt.Sprintf("type %[1]sBox struct {\n\tE  %[1]sSrc\n\tEs []%[1]sSrc\n\tM  map[string]%[1]sSrc\n}\ntype %[1]sBoxT struct {\n\tE  %[1]sTgt\n\tEs []%[1]sTgt\n\tM  map[string]%[1]sTgt\n}\n", p))
+	// a second enum pair (same member names, two packages) without a declared method of its own, reached from two sibling
+	// methods through different structs: one sibling may disable enum handling (method level), which must not change the other
+	qa, qb := strings.ToLower(p)+"qa", strings.ToLower(p)+"qb"
+	f.Pkgs = map[string]string{
+		qa + "/e.go": fmt.Sprintf("package %s\n\ntype Kind %s\n\nconst (\n\tOne Kind = %s\n\tTwo Kind = %s\n)\n", qa, under, lit(1), lit(2)),
+		qb + "/e.go": fmt.Sprintf("package %s\n\ntype Kind %s\n\nconst (\n\tOne Kind = %s\n\tTwo Kind = %s\n\tOther Kind = %s\n)\n", qb, under, lit(21), lit(22), lit(98)),
+	}
+	f.TypeImports = []string{fmt.Sprintf("%q", "MODULE/"+qa), fmt.Sprintf("%q", "MODULE/"+qb)}
+	sb.WriteString(fmt.Sprintf("type %[1]sWa struct {\n\tE %[2]s.Kind\n}\ntype %[1]sWaT struct {\n\tE %[3]s.Kind\n}\ntype %[1]sWb struct {\n\tE %[2]s.Kind\n\tL []%[2]s.Kind\n}\ntype %[1]sWbT struct {\n\tE %[3]s.Kind\n\tL []%[3]s.Kind\n}\n", p, qa, qb))
 	f.Types = sb.String()
 	var b strings.Builder
 	b.WriteString("// goverter:converter\n")
@@ -433,6 +485,23 @@ func famEnum(r *rng.R, id int) *famOut {
 			res = "(" + sig[1] + ", error)"
 		}
 		b.WriteString(fmt.Sprintf("\tM%d(source %s) %s\n", i, sig[0], res))
+	}
+	if r.Chance(70) {
+		names := [2]string{"A0", "Z1"}
+		if r.Bool() {
+			names = [2]string{"Z0", "A1"}
+		}
+		res := func(t string) string {
+			if unknown == "@error" || r.Chance(30) {
+				return "(" + t + ", error)"
+			}
+			return t
+		}
+		if r.Chance(75) {
+			b.WriteString("\t// goverter:enum no\n")
+		}
+		b.WriteString(fmt.Sprintf("\t%s(source %sWa) %s\n", names[0], p, res(p+"WaT")))
+		b.WriteString(fmt.Sprintf("\t%s(source %sWb) %s\n", names[1], p, res(p+"WbT")))
 	}
 	b.WriteString("}\n\n")
 	f.add(p+"C", b.String())
